@@ -16,7 +16,7 @@ from exppoly import Unsupported
 from tasks_core import dump_expr, dump_program, reset_settings, classify_exception, dump_num
 
 U_VALUES = [[1, 2, -3, Fraction(1, 2), 5, -2], [Fraction(-3, 2), 1, 2, 3, Fraction(1, 3), -1], [2, -1, 1, Fraction(2, 3), 4, 3]]
-AUX_VALUES = [0, 1, -1]
+AUX_VALUES = [0]   # like the reference semantics: a variable never initialised holds 0
 
 
 def _rat(x):
@@ -31,7 +31,7 @@ def _fs(x):
     return f"{x.p}/{x.q}"
 
 
-def point_subs(symbols, variables, point, pi):
+def point_subs(symbols, variables, point, pi, types=None):
     """symbols: sympy symbols free in the objects to describe; point: {source variable: value}.
     '<v>0' of a program variable v is v's value before the loop; '_u<digits>' (template
     coefficients Polar leaves free) get fixed non-zero values; other '<v>0' (auxiliary
@@ -50,6 +50,8 @@ def point_subs(symbols, variables, point, pi):
             ui += 1
         elif name.endswith("0") and name[:-1] in varnames:
             val = Fraction(AUX_VALUES[pi % len(AUX_VALUES)])
+            if types and name[:-1] in types and val not in types[name[:-1]]:
+                val = types[name[:-1]][0]
         else:
             raise Unsupported(f"free symbol {name}")
         subs[s] = sp.Rational(val.numerator, val.denominator)
@@ -81,6 +83,13 @@ class Ctx:
         self.rb = RecBuilder(program)
         self.sys_cache = {}
         self.variables = list(program.variables)
+        self.types = {}
+        for v, t in program.typedefs.items():
+            if type(t).__name__ == "Finite":
+                try:
+                    self.types[str(v)] = [Fraction(str(sp.nsimplify(sp.sympify(str(x)), rational=True))) for x in t.values]
+                except Exception:
+                    pass
         self.var_syms = [sp.Symbol(str(v)) for v in self.variables]
 
     def monomials_of(self, expr):
@@ -157,7 +166,7 @@ def describe_pair(cx, Q, f, k_polar, points, N, certs=True):
         inst = {"point": pt}
         out["instances"].append(inst)
         try:
-            subs, used = point_subs(free, cx.variables, pt, pi)
+            subs, used = point_subs(free, cx.variables, pt, pi, cx.types)
             inst["symbols"] = used
             Qp = sp.expand(sym_subs(Q, subs))
             fp = sym_subs(f, subs)
@@ -373,13 +382,13 @@ def task_synth(task):
                                 # same symbol values as the pair's instance (same _u symbols)
                                 pfree = set(sp.sympify(pair["Q"]).free_symbols) | set(sp.sympify(pair["f"]).free_symbols)
                                 pfree = {s for s in pfree if str(s) not in {str(v) for v in cx.variables} and str(s) != "n"}
-                                subs, used = point_subs(pfree | free, list(cx.variables) + list(sprog.variables), pt, pi)
+                                subs, used = point_subs(pfree | free, list(cx.variables) + list(sprog.variables), pt, pi, cx.types)
                                 pin = pair["instances"][pi]
                                 for nm, val in (pin.get("symbols") or {}).items():
                                     if used.get(nm) != val:
                                         raise Unsupported("symbol values of pair and program differ")
                             else:
-                                subs, used = point_subs(free, list(cx.variables) + list(sprog.variables), pt, pi)
+                                subs, used = point_subs(free, list(cx.variables) + list(sprog.variables), pt, pi, cx.types)
                             inst["symbols"] = used
                             mons = [sp.Symbol(v) for v in retained]
                             if pair is not None and "R" in pair["instances"][pi]:
@@ -403,3 +412,13 @@ def task_synth(task):
     finally:
         UnsolvInvSynthesizer.get_invariants = classmethod(orig)
     return res
+
+
+def task_synth_parse(task):
+    """Polar's parse of a program text, structurally (ties the transcribed benchmark ASTs to the files)"""
+    reset_settings({})
+    from inputparser import Parser
+    try:
+        return {"parsed": dump_program(Parser().parse_string(task["text"])), "name": task.get("name")}
+    except BaseException as e:  # noqa
+        return {"exception": classify_exception(e), "name": task.get("name")}
